@@ -853,3 +853,114 @@ func osErrorSource(v ssa.Value) string {
 	}
 	return walk(v)
 }
+
+// ruleCompileNeverNilNil implements C08.R8: every function of the API package that returns (*Vore, error) returns, on each path,
+// either a program that was just built or a non-nil error — never (nil, nil), which callers dereference.
+func ruleCompileNeverNilNil(c *Ctx, rule string) {
+	r := c.R
+	vT := c.NamedType("libvore", "Vore")
+	if vT == nil {
+		r.Ob(rule, "anchor libvore.Vore", "").Und("not found")
+		return
+	}
+	errT := types.Universe.Lookup("error").Type()
+	var fns []*ssa.Function
+	for _, fn := range c.SrcFuncs("libvore") {
+		res := fn.Signature.Results()
+		if res.Len() == 2 && types.Identical(deref(res.At(0).Type()), vT) && types.Identical(res.At(1).Type(), errT) {
+			fns = append(fns, fn)
+		}
+	}
+	inSet := map[*ssa.Function]bool{}
+	for _, f := range fns {
+		inSet[f] = true
+	}
+	r.Floor(rule, "API functions returning (*Vore, error)", len(fns), 3)
+	var nonNil func(v ssa.Value, d int) bool
+	nonNil = func(v ssa.Value, d int) bool {
+		if d > 6 {
+			return false
+		}
+		switch x := v.(type) {
+		case *ssa.Alloc:
+			return true
+		case *ssa.Phi:
+			for _, e := range x.Edges {
+				if !nonNil(e, d+1) {
+					return false
+				}
+			}
+			return len(x.Edges) > 0
+		}
+		return false
+	}
+	// constructedErr: the error operand is freshly constructed (MakeInterface of a non-nil value or a call of an error constructor)
+	nonNilErr := func(e ssa.Value, at *ssa.Return) bool {
+		switch x := e.(type) {
+		case *ssa.MakeInterface:
+			return true
+		case *ssa.Call:
+			_ = x
+			return true // a constructor call such as NewVoreFileError(...): checked by C08.R6 to produce a printable error
+		}
+		// dominated by the non-nil edge of `e != nil`
+		ok := false
+		instrsOf(at.Parent(), func(in ssa.Instruction) {
+			iff, is := in.(*ssa.If)
+			if !is {
+				return
+			}
+			bo, is := iff.Cond.(*ssa.BinOp)
+			if !is || bo.X != e || !isNilConst(bo.Y) {
+				return
+			}
+			var succ *ssa.BasicBlock
+			if bo.Op == token.NEQ {
+				succ = iff.Block().Succs[0]
+			} else if bo.Op == token.EQL {
+				succ = iff.Block().Succs[1]
+			}
+			if succ != nil && len(succ.Preds) == 1 && (succ == at.Block() || succ.Dominates(at.Block())) {
+				ok = true
+			}
+		})
+		return ok
+	}
+	for _, fn := range fns {
+		k := 0
+		instrsOf(fn, func(in ssa.Instruction) {
+			ret, ok := in.(*ssa.Return)
+			if !ok || len(ret.Results) != 2 {
+				return
+			}
+			k++
+			ob := r.Ob(rule, fmt.Sprintf("%s: return #%d is a program or an error", fnName(fn), k), c.pos(ret.Pos()))
+			p, e := ret.Results[0], ret.Results[1]
+			// a pair forwarded from another function of the set
+			if px, ok := p.(*ssa.Extract); ok {
+				if ex, ok := e.(*ssa.Extract); ok && px.Tuple == ex.Tuple && px.Index == 0 && ex.Index == 1 {
+					if call, ok := px.Tuple.(*ssa.Call); ok && inSet[call.Call.StaticCallee()] {
+						ob.OKnt("forwards both results of " + call.Call.StaticCallee().Name() + ", which is held to the same rule")
+						return
+					}
+				}
+			}
+			switch {
+			case isNilConst(e) || provenNil(e, ret):
+				if nonNil(p, 0) || nilChecked(p, ret) {
+					ob.OKnt("nil error with a program allocated on this path or tested against nil")
+				} else {
+					ob.Bad("returns a nil error with " + exprStr(p) + ", which is not a program built on this path and can be nil: Compile would report success without a program and the caller dereferences nil")
+				}
+			case nonNilErr(e, ret):
+				ob.OKnt("returns a non-nil error")
+			default:
+				if nonNil(p, 0) {
+					ob.OKnt("returns a program allocated on this path")
+				} else {
+					ob.Bad("neither the program (" + exprStr(p) + ") nor the error (" + exprStr(e) + ") is known to be non-nil on this path")
+				}
+			}
+		})
+	}
+}
